@@ -81,7 +81,7 @@ def make_msg(cls, uid, N):
     raise ValueError(cls)
 
 
-def run_history(acc, role, n_out, n_in, logon_first, ops, maxlen):
+def run_history(acc, role, n_out, n_in, logon_first, ops, maxlen, frame_hook=None):
     ops = ops[:maxlen]
     case = {"role": role, "n_out": n_out, "n_in": n_in, "logon_first": logon_first, "ops": [list(o) for o in ops]}
     j = Journaler()
@@ -106,6 +106,8 @@ def run_history(acc, role, n_out, n_in, logon_first, ops, maxlen):
             pos = len(b.link.writers[b.side].written)
             new_in_step = 0
             for fr in frames:
+                if frame_hook:
+                    frame_hook(fr, step)
                 r = ref_check_frame(fr)
                 if r:
                     bad("wire-malformed", f"{step}: {r}: {fr!r}")
